@@ -24,13 +24,14 @@ Local Open Scope string_scope.
 Local Open Scope list_scope.
 
 Definition uri := N.
-Definition txt := N.     (* texts are compared by identity only *)
+Definition txt := N.     (* texts are compared for equality only *)
 
 (** static facts about a uri *)
 Record env := {
   is_ws : uri -> bool;     (* WorkspaceManager::is_workspace_file *)
   on_disk : uri -> bool;   (* uri_to_file_path(uri).exists() *)
-  is_mod : uri -> bool     (* the module index has an entry for the file *)
+  is_mod : uri -> bool;    (* the module index has an entry for the file *)
+  disk_text : uri -> option N   (* read_file_with_encoding(path): the content on disk, if readable *)
 }.
 
 Record docs := {
@@ -62,8 +63,10 @@ Inductive pc :=
 | POC3 (u : uri) (t : txt)               (* analysis.write -> update_file_by_uri(uri, Some(text)) *)
 | PCL1 (u : uri)                         (* close: workspace_manager.write -> close_open_file *)
 | PCL2 (u : uri)                         (* file gone from disk: analysis.write -> remove_file_by_uri;
-                                            else analysis.read: known and not a module? *)
+                                            else analysis.read: unknown -> return; not a module -> PCL3;
+                                            a module: compare the analysed text with the file on disk *)
 | PCL3 (u : uri)                         (* analysis.write -> remove_file_by_uri *)
+| PCL4 (u : uri) (t : txt)               (* analysis.write -> update_file_by_uri(uri, Some(disk_text)) *)
 | PNop (k : nat).
 
 (** one lock-protected section *)
@@ -74,15 +77,24 @@ Definition exec (e : env) (p : pc) (d : docs) : docs * option pc :=
   | POC3 u t => (set_vfs u (Some t) d, None)
   | PCL1 u => (set_open u None d, Some (PCL2 u))
   | PCL2 u => if negb (on_disk e u) then (set_vfs u None d, None)
-              else (d, if is_some (d_vfs d u) && negb (is_mod e u) then Some (PCL3 u) else None)
+              else (d, match d_vfs d u with
+                       | None => None                          (* get_file_id(uri)? *)
+                       | Some cur =>
+                           if negb (is_mod e u) then Some (PCL3 u)
+                           else match disk_text e u with
+                                | Some t => if N.eqb cur t then None else Some (PCL4 u t)
+                                | None => None
+                                end
+                       end)
   | PCL3 u => (set_vfs u None d, None)
+  | PCL4 u t => (set_vfs u (Some t) d, None)
   | PNop k => (d, match k with O => None | S k' => Some (PNop k') end)
   end.
 
 Definition pc_size (p : pc) : nat :=
   match p with
   | POC1 _ _ => 3 | POC2 _ _ _ => 2 | POC3 _ _ => 1
-  | PCL1 _ => 3 | PCL2 _ => 2 | PCL3 _ => 1
+  | PCL1 _ => 3 | PCL2 _ => 2 | PCL3 _ => 1 | PCL4 _ _ => 1
   | PNop k => S k
   end.
 
